@@ -171,6 +171,12 @@ def run(tier="quick", seed=0, jobs=16):
     rep.assumptions = ["dags.concatenate_functions / create_dag contract: every ancestor of the targets is evaluated exactly once from its ancestors' values",
                        "purity of all node functions is proved by E3 (lemma); the binding of functions to names under different target sets / data columns is explored, not proved"]
     n, impure = purity_lemma(rep)
+    # which function is bound to a group-level name for every presence pattern of explicit function /
+    # built-in spec / user spec / base column (function or data) / request kind: exhaustive contract
+    # on the real _create_aggregate_by_group_functions (shared with C11)
+    from props import C11 as c11
+
+    c11.precedence(rep)
     bad, n_eval, n_dist = bounded(rep, tier, seed)
     for i, b in enumerate(impure[:3]):
         rep.violation(f"impure:{b[0]}", f"node function {b[0]} is not pure: writes {b[1]} unknown calls {b[2]}", {"function": b[0]}, False)
